@@ -41,7 +41,7 @@ CLIPS = [0.0, 1.0, 10.0]
 
 def cases(tier, seed):
     out = []
-    ns = [2, 3, 5, 10, 21] if tier == "quick" else [2, 3, 4, 5, 7, 10, 21, 51, 101]
+    ns = [2, 3, 5, 10, 21, 101, 257, 1001] if tier == "quick" else [2, 3, 4, 5, 7, 10, 21, 51, 101, 257, 1001]
     reps = 1 if tier == "quick" else 4
     import random
 
